@@ -23,7 +23,10 @@ import (
 
 var zzErr6 = errors.New("zz6")
 
-type zzSuite6 struct{}
+type zzSuite6 struct {
+	verdicts []bool // verdict per Decrypt call; missing entries authenticate
+	calls    int
+}
 
 func (s *zzSuite6) String() string                               { return "zz6" }
 func (s *zzSuite6) ID() CipherSuiteID                            { return TLS_ECDHE_ECDSA_WITH_AES_128_GCM_SHA256 }
@@ -37,7 +40,17 @@ func (s *zzSuite6) ECC() bool                                                   
 func (s *zzSuite6) Init(ms, cr, sr []byte, isClient bool) error                      { return nil }
 func (s *zzSuite6) IsInitialized() bool                                              { return true }
 func (s *zzSuite6) Encrypt(pkt *recordlayer.RecordLayer, raw []byte) ([]byte, error) { return raw, nil }
-func (s *zzSuite6) Decrypt(h recordlayer.Header, in []byte) ([]byte, error)          { return in, nil }
+func (s *zzSuite6) Decrypt(h recordlayer.Header, in []byte) ([]byte, error) {
+	ok := true
+	if s.calls < len(s.verdicts) {
+		ok = s.verdicts[s.calls]
+	}
+	s.calls++
+	if !ok {
+		return nil, zzErr6
+	}
+	return in, nil
+}
 
 // zzProt6 opens every record; the 64-bit record number is carried in clear in the first 8 body bytes so that the
 // harness controls it independently of the 16 bits in the unified header.
@@ -224,5 +237,54 @@ func zzConnReplayAcrossKeyUpdates() {
 	} else if zzsymOr(late > s3, int(s3)-int(late) < 64) {
 		zzsymAssert(got == 1, "late_fresh_record_of_old_epoch_delivered")
 		zzsymCover("late_fresh_delivered")
+	}
+}
+
+// Marker order on the DTLS 1.2 receive path (without and with a 2-byte connection ID): a record that FAILS
+// authentication (forged tag, or right tag but wrong connection ID) with an arbitrary sequence number s commits
+// nothing to the replay window: the genuine record bearing the same sequence number arriving afterwards is delivered,
+// and a genuine record more than 64 behind a forged far-ahead number is still delivered (the window did not slide).
+//
+//symgo:entry covers=genuine_after_forgery_same_seq,genuine_after_far_ahead_forgery,cid_layout,plain_layout
+func zzConnMarkerOrder12() {
+	suite := &zzSuite6{verdicts: []bool{false, true}}
+	c := zzConn6(64)
+	common := dtlsstate.CommonState(c.state)
+	common.CipherSuite = suite
+	common.LocalVersion = protocol.Version1_2
+	common.SetRemoteEpoch(1)
+	withCID := zzsymChoice("cid", 2) == 1
+	var cid []byte
+	if withCID {
+		cid = zzsymBytes("lcid", 2)
+		common.SetLocalConnectionID(cid)
+		zzsymCover("cid_layout")
+	} else {
+		zzsymCover("plain_layout")
+	}
+	mk := func(seq uint64) []byte {
+		if !withCID {
+			h := recordlayer.Header{ContentType: protocol.ContentTypeApplicationData, Version: protocol.Version1_2, Epoch: 1, SequenceNumber: seq, ContentLen: 1}
+			raw, _ := h.Marshal()
+			return append(raw, 0x55)
+		}
+		h := recordlayer.Header{ContentType: protocol.ContentTypeConnectionID, Version: protocol.Version1_2, Epoch: 1, SequenceNumber: seq, ContentLen: 2, ConnectionID: cid}
+		raw, _ := h.Marshal()
+		return append(raw, 0x55, byte(protocol.ContentTypeApplicationData)) // inner plaintext: content || real type
+	}
+	sForged, sGenuine := zzsymU64("seq_forged"), zzsymU64("seq_genuine")
+	zzsymAssume(sForged <= recordlayer.MaxSequenceNumber)
+	zzsymAssume(sGenuine <= recordlayer.MaxSequenceNumber)
+	from := &net.UDPAddr{Port: 1}
+	_, err := c.handleIncomingPacket(context.Background(), mk(sForged), from, nil)
+	zzsymAssert(err == nil && zzDrain6(c) == 0, "forgery_dropped_silently")
+	_, err = c.handleIncomingPacket(context.Background(), mk(sGenuine), from, nil)
+	zzsymAssert(err == nil, "genuine_no_error")
+	zzsymAssert(zzDrain6(c) == 1, "genuine_record_delivered_after_forgery")
+	if sGenuine == sForged {
+		zzsymCover("genuine_after_forgery_same_seq")
+	}
+	if sForged > sGenuine+1000 {
+		zzsymCover("genuine_after_far_ahead_forgery")
 	}
 }
